@@ -28,11 +28,15 @@ import (
 // Input is one self-contained case: the exact source bytes (as a Go string,
 // JSON-escaped; invalid UTF-8 is carried in Hex instead).
 type Input struct {
-	Kind    string `json:"kind"` // bytes | truncation | token-mutation | invalid | nesting | valid
-	Src     string `json:"src,omitempty"`
-	Hex     string `json:"hex,omitempty"`
-	Mode    int    `json:"mode"`
-	Invalid string `json:"invalid,omitempty"` // the inserted invalid construct, for invalid kind
+	Kind    string   `json:"kind"` // bytes | truncation | token-mutation | invalid | nesting | valid
+	Src     string   `json:"src,omitempty"`
+	Hex     string   `json:"hex,omitempty"`
+	Mode    int      `json:"mode"`
+	Invalid string   `json:"invalid,omitempty"` // the inserted invalid construct, for invalid kind
+	Params  string   `json:"params,omitempty"`  // parsefunction kind: the two texts handed to parser.ParseFunction
+	Body    string   `json:"body,omitempty"`
+	Closes  bool     `json:"closes,omitempty"` // parsefunction: the texts close the function early (must be rejected)
+	Srcs    []string `json:"srcs,omitempty"`   // fileset kind: sources parsed one after the other into one file.FileSet
 }
 
 func (in Input) source() string {
@@ -103,6 +107,7 @@ var invalidSnippets = []string{
 	"[1 2];", "f(1 2);", "f(,);", "a.b.;", "a..b;", "a.1;", "a.;", "new;", "x = ;", "x = 1 +;", "x = * 2;", "a ? b;", "a ? b : ;", "(;", ");", "(a;", "a);", "{", "}", "[;", "];", "a[;", "a[1;",
 	"throw\n1;", "throw;", "do ; while", "while () ;", "while (1", "for (;;", "for (;) ;", "for (a;b) ;", "if () ;", "if (1", "with () ;", "with;",
 	"a &^ b;", "a &^= 1;", "3in x;", "3x;", "0x;", "0xg;", "1e;", "1e+;", "08.5x;", "1.2.3;", "@;", "#;", "a # b;", "\\u00zz;", "\\u0030a;", "a\\u0020b;", "\"\\u12\";", "'\\x1';", "\"\\u{61}\"x;", "x = 'a' 'b';", "x = 1 2;", "a b;", "a => b;", "`t`;", "let x y;", "a ** ;",
+	"x = /[", "x = /[a", "x = /a[\\", "x = /[^", "f(a,);", "new f(a,);", "f(a,,b);",
 	"x = function (a a) {};", "x = function f(", "x = {", "x = [", "x = (", "debugger x;", "delete;", "typeof;", "void;", "x = new new;", "in x;", "instanceof x;", ", x;", "? x : y;", ": x;", "x = a ?? ;",
 }
 
@@ -113,6 +118,18 @@ var invalidSnippets = []string{
 // unicode escape in a binding position (7.6: an escape does not change which
 // IdentifierName it is; 7.6.1: a ReservedWord is not an Identifier).
 func contextInvalid(r *gen.Rand) string {
+	if r.Chance(1, 5) {
+		// 7.8.3: the character after a NumericLiteral must not be an IdentifierStart or a digit
+		num := []string{"1", "0", "12", "1.5", ".5", "5.", "1e3", "1E3", "1e+3", "2e-2", "1.5e3", ".5e1", "5.e1", "0x1f", "0XA", "1e30", "0.0", "017"}[r.Intn(18)]
+		follow := []string{"in", "instanceof", "x", "$", "_", "\\u0061", "in\n", "e", "px", "n"}[r.Intn(10)]
+		if strings.HasPrefix(num, "0x") || strings.HasPrefix(num, "0X") {
+			follow = []string{"in", "instanceof", "x", "$", "_", "g", "px"}[r.Intn(7)] // a-f would continue the hex literal
+		}
+		if follow == "e" && !strings.ContainsAny(num, "eExX") {
+			follow = "ex" // "1e" alone is an unfinished exponent, an error as well, but of another kind
+		}
+		return fmt.Sprintf([]string{"x = %s%s {};", "%s%s y;", "var q = %s%s Number;", "f(%s%s);"}[r.Intn(4)], num, follow)
+	}
 	if r.Chance(1, 3) {
 		words := []string{"break", "case", "catch", "continue", "debugger", "default", "delete", "do", "else", "finally", "for", "function", "if", "in", "instanceof", "new", "return", "switch", "this", "throw", "try", "typeof", "var", "void", "while", "with",
 			"class", "const", "enum", "export", "extends", "import", "super", "null", "true", "false"}
@@ -178,7 +195,7 @@ var soup = []string{"a", "b", "1", "0x", "'", "\"", "/", "/*", "*/", "//", "\n",
 func exec(c *run.Ctx, i int) {
 	r := c.Rng
 	mode := []int{0, int(parser.StoreComments), int(parser.IgnoreRegExpErrors)}[r.Intn(3)]
-	switch k := r.Intn(22); {
+	switch k := r.Intn(24); {
 	case k < 3: // random bytes
 		n := r.Range(0, 400)
 		b := make([]byte, n)
@@ -253,6 +270,25 @@ func exec(c *run.Ctx, i int) {
 		}
 		in.Invalid = s
 		checkOne(c, in)
+	case k == 23: // several sources parsed into one file.FileSet (bases other than 1)
+		in := Input{Kind: "fileset", Mode: mode}
+		for n := r.Range(2, 4); n > 0; n-- {
+			_, src := validProgram(r)
+			if len(src) > 1200 {
+				src = "var x = 1;\n  f(x)"
+			}
+			if r.Chance(1, 6) {
+				src = []string{"", "// only a comment", "\n\n", "x", ";"}[r.Intn(5)]
+			}
+			in.Srcs = append(in.Srcs, src)
+		}
+		checkFileSet(c, in)
+		return
+	case k == 22: // parser.ParseFunction: parameter and body texts (the Function constructor's path)
+		for m := 0; m < 20; m++ {
+			checkParseFunction(c, genParseFunction(r))
+		}
+		return
 	case k >= 20: // literal internals: escape and pattern fragments inside string / regexp / numeric literals
 		for m := 0; m < 25; m++ {
 			checkOne(c, mk("literal", litfuzz.Source(r), mode))
@@ -303,7 +339,152 @@ func parse(src string, mode int) res {
 	}
 }
 
+// genParseFunction draws the two texts of parser.ParseFunction. "closes" cases
+// end the function early and continue with something else: they are complete
+// programs once wrapped, but neither text is a FormalParameterList / FunctionBody
+// (15.3.2.1), so they must be rejected.
+func genParseFunction(r *gen.Rand) Input {
+	in := Input{Kind: "parsefunction"}
+	params := []string{"", "a", "a, b", "a,b,c", " a ", "a /* c */, b", "\\u0061", "a\n"}
+	bodies := []string{"", "return a", "return a + b;", "var x = 1; return x", "if (a) { return 1 } return 2", "// c", "/* c */ return 1", "return function(){ return a }", "x: for(;;) break x"}
+	switch r.Intn(4) {
+	case 0: // well-formed
+		in.Params, in.Body = params[r.Intn(len(params))], bodies[r.Intn(len(bodies))]
+	case 1: // early close in the body
+		in.Params = params[r.Intn(len(params))]
+		pre := bodies[r.Intn(len(bodies))]
+		if strings.HasPrefix(pre, "//") {
+			pre += "\n" // an early close inside a line comment closes nothing
+		}
+		in.Body = pre + []string{"}); (function(){", "}), (function(){", "} + function(){", "}; x = function(){", "})(1); (function(){", "}).call(this), (function(){", "}\n);\n(function(){", "}) /* */ , (function(){"}[r.Intn(8)] + bodies[r.Intn(len(bodies))]
+		in.Closes = true
+	case 2: // early close in the parameters
+		in.Params = []string{"a){}), (function(b", "){}); (function(", "a){} + function(", "a) { return 1 }), (function(b", "a, b){}); (function(c"}[r.Intn(5)]
+		in.Body = bodies[r.Intn(len(bodies))]
+		in.Closes = true
+	default: // junk: totality only
+		in.Params = []string{"", "a", "a,", ",", "a b", "1", "a = 1", "...a", "{a}", "(", ")", "/*", "//", "a\\", "\u2028"}[r.Intn(15)]
+		in.Body = litfuzz.Source(r)
+		if r.Bool() {
+			in.Body = []string{"}", "{", "})", "({", "*/", "/*", "return", "return }", "\\", "'", "}}}}", "});"}[r.Intn(12)]
+		}
+	}
+	return in
+}
+
+func checkParseFunction(c *run.Ctx, in Input) {
+	c.Announce(in)
+	c.Eval(1)
+	c.Feature("kind:parsefunction")
+	var fn *ast.FunctionLiteral
+	var err error
+	if pv, st := run.Guard(func() { fn, err = parser.ParseFunction(in.Params, in.Body) }); pv != nil {
+		c.Fail("panic", "parser.ParseFunction", in, "function literal or error", fmt.Sprint(pv), st)
+		return
+	}
+	switch {
+	case err == nil && fn == nil:
+		c.Fail("mismatch", "parser.ParseFunction", in, "a function literal", "nil literal and nil error", "")
+	case err == nil && in.Closes:
+		c.Fail("mismatch", "parsefunction-accepts-early-close", in, "SyntaxError: the texts are not a FormalParameterList and a FunctionBody (15.3.2.1)", "accepted", "")
+	case err != nil:
+		c.Feature("parsefunction:rejected")
+	default:
+		c.Feature("parsefunction:accepted")
+	}
+	// the same texts through the Function constructor of a runtime: an error or a function, never a Go panic
+	v := theVM()
+	v.Set("$p", in.Params)
+	v.Set("$b", in.Body)
+	out := ox.Run(v, "typeof Function($p, $b)")
+	if out.Panic != nil {
+		c.Fail("panic", "Function(params, body)", in, "function or SyntaxError", fmt.Sprint(out.Panic), out.Stack)
+		vm = nil
+	} else if in.Closes && out.Err == nil {
+		c.Fail("mismatch", "function-constructor-accepts-early-close", in, "SyntaxError", out.Val.String(), "")
+	}
+	c.Nontrivial("pf|" + in.Params + "|" + in.Body)
+}
+
+// checkFileSet parses several sources into one FileSet: every program must
+// carry the file it was parsed from (name, source, the base the set assigned),
+// its nodes' spans must lie inside that file, and looking a node up through the
+// set must give the same file and the same position as through the file.
+func checkFileSet(c *run.Ctx, in Input) {
+	c.Announce(in)
+	c.Feature("kind:fileset")
+	fs := &file.FileSet{}
+	next := 1
+	for i, src := range in.Srcs {
+		name := fmt.Sprintf("f%d.js", i)
+		var prog *ast.Program
+		var err error
+		if pv, st := run.Guard(func() { prog, err = parser.ParseFile(fs, name, src, parser.Mode(in.Mode)) }); pv != nil {
+			c.Fail("panic", "parser.ParseFile", in, "tree or error list", fmt.Sprint(pv), st)
+			return
+		}
+		c.Eval(1)
+		base := next
+		next = base + len(src) + 1
+		if err != nil || prog == nil {
+			continue
+		}
+		one := Input{Kind: "fileset", Mode: in.Mode, Srcs: in.Srcs, Src: fmt.Sprintf("file %d of %d", i, len(in.Srcs))}
+		if prog.File == nil || prog.File.Base() != base || prog.File.Name() != name || prog.File.Source() != src {
+			got := "nil File"
+			if prog.File != nil {
+				got = fmt.Sprintf("base %d name %q source length %d", prog.File.Base(), prog.File.Name(), len(prog.File.Source()))
+			}
+			c.Fail("mismatch", "fileset-program-file", one, fmt.Sprintf("base %d name %q source length %d", base, name, len(src)), got, "")
+			continue
+		}
+		checkTree(c, one, src, prog)
+		bad := 0
+		ast.Walk(posVisitor(func(n ast.Node) {
+			if bad > 0 {
+				return
+			}
+			i0 := n.Idx0()
+			want := prog.File.Position(i0)
+			var got *file.Position
+			var f *file.File
+			if pv, _ := run.Guard(func() { got, f = fs.Position(i0), fs.File(i0) }); pv != nil {
+				bad++
+				c.Fail("panic", "fileset-position", one, "position", fmt.Sprint(pv), "")
+				return
+			}
+			if int(i0) >= base+len(src) {
+				return // end-of-file index: no character there
+			}
+			same := f != nil && f.Name() == name && f.Base() == base && f.Source() == src
+			if !same || (want == nil) != (got == nil) || (want != nil && *want != *got) {
+				bad++
+				c.Fail("mismatch", "fileset-position", one, fmt.Sprintf("%v in %s", want, name), fmt.Sprintf("%v (file found: %v)", got, same), fmt.Sprintf("node %T at index %d", n, i0))
+			}
+		}), prog)
+	}
+	c.Nontrivial("fileset|" + strings.Join(in.Srcs, "\x00"))
+}
+
+type posVisitor func(n ast.Node)
+
+func (v posVisitor) Enter(n ast.Node) ast.Visitor {
+	if n != nil && !reflect.ValueOf(n).IsNil() {
+		v(n)
+	}
+	return v
+}
+func (v posVisitor) Exit(n ast.Node) {}
+
 func checkOne(c *run.Ctx, in Input) {
+	if in.Kind == "fileset" {
+		checkFileSet(c, in)
+		return
+	}
+	if in.Kind == "parsefunction" {
+		checkParseFunction(c, in)
+		return
+	}
 	src := in.source()
 	c.Announce(in)
 	c.Eval(1)
@@ -339,6 +520,10 @@ func checkOne(c *run.Ctx, in Input) {
 		n := checkTree(c, in, src, r.prog)
 		if n >= 5 {
 			nontrivial = true
+		}
+		// an accepted text can be compiled (the tree is converted, nothing runs)
+		if pv, st := run.Guard(func() { _, _ = theVM().Compile("", src) }); pv != nil {
+			c.Fail("panic", "Compile(accepted source)", in, "a Script or an error", fmt.Sprint(pv), st)
 		}
 	}
 	if in.Kind == "invalid" || in.Kind == "valid" {
@@ -497,6 +682,11 @@ func checkTree(c *run.Ctx, in Input, src string, prog *ast.Program) int {
 		}
 		seen[n] = true
 		count++
+		switch n.(type) {
+		case *ast.BadExpression, *ast.BadStatement:
+			// the parser's recovery placeholder: only legitimate next to a reported error
+			report("bad-node-in-accepted-tree", "no Bad* node when ParseFile reports no error", fmt.Sprintf("%T", n))
+		}
 		var i0, i1 file.Idx
 		pv, st := run.Guard(func() { i0, i1 = n.Idx0(), n.Idx1() })
 		if pv != nil {
